@@ -442,3 +442,76 @@ def register(reg):      # noqa: F811
     _register_6(reg)
     reg.add_lemma(Lemma('prop.C03.mono', direct=_c03_mono, properties=('C03',), doc='okta non-decreasing in the hit count'))
     reg.add_lemma(Lemma('prop.C03.range', direct=_c03_range, properties=('C03',), doc='okta in 0..8'))
+
+
+def _cnt_union_base():
+    a, b, u = z3.Const('a', BoolArr), z3.Const('b', BoolArr), z3.Const('u', BoolArr)
+    z = z3.IntVal(0)
+    return [cnt_def(a, z), cnt_def(b, z), cnt_def(u, z)], cnt(u, 0) == cnt(a, 0) + cnt(b, 0)
+
+
+def _cnt_union_step():
+    """u = a or b pointwise, a and b disjoint (instances at j)  and  IH at j  =>  holds at j+1"""
+    a, b, u = z3.Const('a', BoolArr), z3.Const('b', BoolArr), z3.Const('u', BoolArr)
+    j = z3.Int('j')
+    return [j >= 0, u[j] == z3.Or(a[j], b[j]), z3.Not(z3.And(a[j], b[j])), cnt(u, j) == cnt(a, j) + cnt(b, j),
+            cnt_def(a, j), cnt_def(b, j), cnt_def(u, j)], cnt(u, j + 1) == cnt(a, j + 1) + cnt(b, j + 1)
+
+
+_register_7 = register
+
+
+def register(reg):      # noqa: F811
+    _register_7(reg)
+    reg.add_lemma(Lemma('cnt_union', base=_cnt_union_base, step=_cnt_union_step, properties=('C07',),
+                        doc='u = a or b pointwise with a, b disjoint => cnt(u,k) == cnt(a,k) + cnt(b,k)'))
+
+
+# ---------------------------------------------------------------------------------------------
+# C07: relational statements as lemmas over the per-row postcondition of _cleanup_pdf
+# ---------------------------------------------------------------------------------------------
+
+def _row_out(h, hn, t, lim):
+    """what _cleanup_pdf::post.rows says about one row: (present, type', height' is NaN, height')"""
+    above = z3.And(z3.Not(hn), h > lim)
+    present = z3.Not(z3.And(above, t > 1))
+    t2 = z3.If(z3.And(above, t <= 1), z3.IntVal(0), t)
+    hn2 = z3.Or(hn, z3.And(above, t <= 1))
+    return above, present, t2, hn2
+
+
+def _c07_rel1():
+    """two inputs that differ only in the height of a hit above the limit (both heights above it) give the same row"""
+    h1, h2, lim = z3.Reals('h1 h2 lim'); t = z3.Int('t')
+    F_ = z3.BoolVal(False)
+    a1, p1, t1, n1 = _row_out(h1, F_, t, lim)
+    a2, p2, t2, n2 = _row_out(h2, F_, t, lim)
+    same = z3.And(p1 == p2, z3.Implies(p1, z3.And(t1 == t2, n1 == n2, n1)))      # kept rows carry NaN: the height is gone
+    return [h1 > lim, h2 > lim], same
+
+
+def _c07_rel2():
+    """replacing a first / VV hit above the limit by a non-detection (NaN, type 0) gives the same row; a higher hit above
+    the limit produces no row at all, like its removal"""
+    h, lim = z3.Reals('h lim'); t = z3.Int('t')
+    F_, T_ = z3.BoolVal(False), z3.BoolVal(True)
+    a1, p1, t1, n1 = _row_out(h, F_, t, lim)
+    a2, p2, t2, n2 = _row_out(h, T_, z3.IntVal(0), lim)        # the non-detection that replaces it
+    return [h > lim], z3.And(z3.Implies(t <= 1, z3.And(p1, p2, t1 == t2, n1, n2)), z3.Implies(t > 1, z3.Not(p1)))
+
+
+def _c07_below_intact():
+    h, lim = z3.Reals('h lim'); t = z3.Int('t'); hn = z3.Bool('hn')
+    a, p, t2, n2 = _row_out(h, hn, t, lim)
+    return [z3.Or(hn, h <= lim)], z3.And(p, t2 == t, n2 == hn)
+
+
+_register_8 = register
+
+
+def register(reg):      # noqa: F811
+    _register_8(reg)
+    L = lambda *a, **k: reg.add_lemma(Lemma(*a, properties=('C07',), **k))
+    L('prop.C07.rel1', direct=_c07_rel1, doc='heights above the limit are irrelevant: the output row does not mention them')
+    L('prop.C07.rel2', direct=_c07_rel2, doc='a hit above the limit behaves like the non-detection / removal that replaces it')
+    L('prop.C07.below_intact', direct=_c07_below_intact, doc='hits at or below the limit (and non-detections) are kept unchanged')
